@@ -76,6 +76,41 @@ int main(void)
 			new_slot(id, id, n);
 			result("ok");
 		}
+		else if (!strcmp(op, "sinit") && drv_nw == 2) {
+			/* an identifier made with the static initialiser MPT_IDENTIFIER_INIT, in a block of exactly its size */
+			static const MPT_STRUCT(identifier) tmpl = MPT_IDENTIFIER_INIT;
+			if (nslot >= MAXID) { puts("bad-op"); continue; }
+			MPT_STRUCT(identifier) *id = __real_malloc(sizeof(*id));
+			memcpy(id, &tmpl, sizeof(*id));
+			new_slot(id, id, sizeof(*id));
+			result("ok");
+		}
+		else if (!strcmp(op, "ninit") && drv_nw == 2) {
+			/* the identifier of a node made with the static initialiser MPT_NODE_INIT, in a block of exactly the node's size */
+			static const MPT_STRUCT(node) tmpl = MPT_NODE_INIT;
+			if (nslot >= MAXID) { puts("bad-op"); continue; }
+			MPT_STRUCT(node) *nd = __real_malloc(sizeof(*nd));
+			memcpy(nd, &tmpl, sizeof(*nd));
+			new_slot(&nd->ident, nd, sizeof(nd->ident));
+			result("ok");
+		}
+		else if (!strcmp(op, "setfail") && (drv_nw == 4 || drv_nw == 5)) {
+			/* mpt_identifier_set while malloc fails: a request that needs an allocation must be refused and change nothing */
+			uint8_t *dat; size_t dlen; int isnull; long len;
+			if (parse_slot(drv_w[2], &k) || parse_bytes(drv_w[3], &dat, &dlen, &isnull)) { puts("bad-op"); continue; }
+			len = (long) dlen;
+			if (drv_nw == 5 && parse_len(drv_w[4], &len)) { __real_free(dat); puts("bad-op"); continue; }
+			if ((isnull && (drv_nw != 5 || len < 0)) || (!isnull && len > (long) dlen)) { __real_free(dat); puts("bad-op"); continue; }
+			uint8_t *blk = 0, *nm = isnull ? 0 : name_block(dat, dlen, drv_nw == 5, len, &blk);
+			in_lib = (int) k;
+			fail_armed = 1; fail_hit = 0;
+			void *r = mpt_identifier_set(slots[k].id, (char *) nm, (int) len);
+			fail_armed = 0;
+			in_lib = -1;
+			__real_free(blk);
+			__real_free(dat);
+			result(r ? "ok" : "refused");
+		}
 		else if (!strcmp(op, "alloc") && drv_nw == 3) {
 			/* mpt_identifier_new(len) */
 			if ((drv_w[2][0] == '0' && drv_w[2][1]) || drv_parse_nat(drv_w[2], &n) || n > 100000 || nslot >= MAXID) { puts("bad-op"); continue; }
